@@ -476,3 +476,7 @@ def sample_view(sc, r):
     if sc.get("concurrent"):
         return {"earlier_connections": sc["concurrent"]["before"], "threads_connecting_at_once_to": sc["concurrent"]["targets"], "policy": sc.get("policy")}
     return {"steps": sc["steps"]}
+
+
+# round 7 summary for the evidence file
+RULE = RULE + "  Round 7: 'concurrent' - cookies stored for two domains, then one thread per target (2-3) connects at the same time (their responses set nothing): seeded coop / prob / PCT schedules and a sweep pre-empting either thread at every traced line of its connect() (quick: every third); each request carries exactly its own host's cookies."
